@@ -12,7 +12,8 @@ import (
 )
 
 type Case struct {
-	Part   string `json:"part"` // script | special | byproducts
+	Choices []int `json:"choices,omitempty"` // schedule (simulated exploration)
+	Part   string `json:"part"` // script | special | sim
 	Script string `json:"script,omitempty"`
 	What   string `json:"what,omitempty"`
 	RunDir string `json:"run_dir,omitempty"` // "" | existing | missing
@@ -154,6 +155,26 @@ func judgeSpecial(c *mcx.Ctx, cs Case) (obs, sig, class string) {
 			return "no error", "C14|unstartable-command-not-reported|not-executable", "error-expected"
 		}
 		return "error as expected", "", "error-expected"
+	case "relative-command-in-run-directory", "bare-command-name-from-path":
+		// a command given relative to the working directory of the step, which is not the verifier's own
+		dir := gen.FreshDir(c.Work, "stepdir")
+		os.WriteFile(dir+"/c14-step.sh", []byte("#!/bin/sh\necho hello\necho oops >&2\nexit 7\n"), 0o755)
+		other := gen.FreshDir(c.Work, "elsewhere")
+		os.Chdir(other)
+		defer os.Chdir("/")
+		args := []string{"./c14-step.sh"}
+		if cs.What == "bare-command-name-from-path" {
+			args = []string{"sh", "-c", "echo hello; echo oops >&2; exit 7"}
+		}
+		out, err := intoto.RunCommand(args, dir)
+		c.Impl(1)
+		if err != nil {
+			return "error: " + err.Error(), "C14|startable-command-reported-as-error|" + cs.What, "terminates"
+		}
+		if out["stdout"] != "hello\n" || out["stderr"] != "oops\n" || out["return-value"] != float64(7) {
+			return fmt.Sprintf("%v", out), "C14|wrong-capture|" + cs.What, "terminates"
+		}
+		return "captured", "", "terminates"
 	case "byproducts-of-run":
 		dir := gen.FreshDir(c.Work, "run")
 		os.Chdir(dir)
@@ -209,21 +230,25 @@ func enumerate(thorough bool, emit func(Case)) {
 			emit(Case{Part: "script", Script: s, RunDir: d})
 		}
 	}
-	vol := []string{"O8,x0", "E8,x0", "O4,E4,O4,E4,x0", "E8,O8,x1", "E32,x0", "O32,x0", "E32,O32,x3", "O16,E16,O16,E16,x0"}
+	vol := []string{"O8,x0", "E8,x0", "O4,E4,O4,E4,x0", "E8,O8,x1", "E32,x0", "O32,x0", "E32,O32,x3", "O16,E16,O16,E16,x0", "B8,x0", "B32,x5", "B64,x0", "B32,B32,x0"}
 	if thorough {
 		vol = append(vol, "O128,x0", "E128,x0", "O64,E64,O64,E64,x0", "E128,O128,x255", "O128,E128,x0", "E1,O127,E127,x0")
 	}
 	for _, s := range vol {
 		emit(Case{Part: "script", Script: s})
 	}
-	for _, w := range []string{"empty-command", "nil-command", "missing-executable", "not-executable", "byproducts-of-run"} {
+	for _, w := range []string{"empty-command", "nil-command", "missing-executable", "not-executable", "byproducts-of-run", "relative-command-in-run-directory", "bare-command-name-from-path"} {
 		emit(Case{Part: "special", What: w})
 	}
 }
 
 func judge(c *mcx.Ctx, cs Case) (string, string, string) {
-	if cs.Part == "script" {
+	switch cs.Part {
+	case "script":
 		return judgeScript(c, cs)
+	case "sim":
+		obs, sig, _ := simOnce(cs.Script, mcx.NewReplay(cs.Choices, func(string) bool { return true }))
+		return obs, sig, "sim"
 	}
 	return judgeSpecial(c, cs)
 }
@@ -234,6 +259,7 @@ func run(c *mcx.Ctx) {
 		return
 	}
 	var n int64
+	runSim(c, &n)
 	enumerate(c.Thorough(), func(cs Case) {
 		n++
 		if !c.Mine(n) {
@@ -255,6 +281,53 @@ func run(c *mcx.Ctx) {
 	})
 }
 
+// runSim explores all schedules of every script against the simulated child (exploration 1).
+func runSim(c *mcx.Ctx, n *int64) {
+	if no := notOwned(); len(no) > 0 {
+		c.Cap(fmt.Sprintf("simulated exploration skipped: the package uses concurrency constructs the scheduler does not model (%v); the real-process exploration alone decides", no))
+		return
+	}
+	maxLen := 4
+	if c.Thorough() {
+		maxLen = 5
+	}
+	for _, s := range scripts(maxLen) {
+		for _, x := range []string{"x0", "x3"} {
+			full := x
+			if s != "" {
+				full = s + "," + x
+			}
+			*n++
+			if !c.Mine(*n) {
+				continue
+			}
+			sig, obs, choices, ex, inconclusive, pts := simExplore(full, 300000)
+			c.Impl(ex.Executions)
+			c.Step(ex.Executions, ex.PointsSeen)
+			c.Depth(pts)
+			c.Case(full != "x0")
+			c.Count("sim_schedules", ex.Executions)
+			c.Count("sim_distinct_states", ex.States)
+			c.Count("sim_executions_cut_at_seen_state", ex.Pruned)
+			if ex.Capped {
+				c.Cap("simulated exploration capped at 300000 schedules for script " + full)
+			}
+			if inconclusive != "" {
+				c.Cap("simulated exploration inconclusive (" + inconclusive + "); the real-process exploration alone decides")
+				c.Outcome("sim|inconclusive")
+				return
+			}
+			c.Outcome("sim|" + map[bool]string{true: "all-schedules-complete-capture", false: "violation"}[sig == ""] + "|" + scriptClass(full))
+			if sig != "" {
+				c.Violation(sig, fmt.Sprintf("script %s, schedule %v: %s", full, choices, clip(obs)), Case{Part: "sim", Script: full, Choices: choices}, clip(obs))
+			}
+			if c.WantSample() && *n%97 == 5 {
+				c.Sample(map[string]any{"part": "simulated child, all schedules", "script": full, "schedules": ex.Executions, "max_points": pts})
+			}
+		}
+	}
+}
+
 func clip(s string) string {
 	if len(s) > 300 {
 		return s[:300] + "..."
@@ -273,8 +346,8 @@ func replay(c *mcx.Ctx, raw json.RawMessage) (string, string) {
 
 func init() {
 	mcx.Register(&mcx.Driver{
-		ID: "C14", Run: run, Replay: replay,
-		Rule: "every write script of <= 3 (thorough 4) operations from {write 1/2/3 units to stdout, write 1/2/3 units to stderr, close stdout, close stderr} (1 unit = half the kernel pipe capacity, verified with F_GETPIPE_SZ; 3 units exceed the pipe) followed by exit 0 / 3 / 255, executed by a real child process through RunCommand; plus exits by signal, scripts with pauses, existing / missing working directory, volume scripts up to 1 MiB per stream (thorough: 4 MiB), empty / nil / missing / non-executable commands and the by-products of InTotoRun. " +
+		ID: "C14", Run: run, Replay: replay, KernelScheduled: true,
+		Rule: "(1) simulated child under the cooperative scheduler: for every write script of <= 4 (thorough 5) operations x exit 0 / 3, ALL interleavings (stateless DFS with state-hash pruning: per-thread position and observation hash, pipe contents and flags, channel queues) of the parent (the real RunCommand), the child thread, the goroutines RunCommand starts and os/exec-style copier threads at every pipe read / write / close, Start, Wait and channel operation, with pipes of 2 units; deadlock = no enabled thread; capture and status compared exactly in every schedule; (2) every write script of <= 3 (thorough 4) operations from {write 1/2/3 units to stdout, write 1/2/3 units to stderr, close stdout, close stderr} (1 unit = half the kernel pipe capacity, verified with F_GETPIPE_SZ; 3 units exceed the pipe) followed by exit 0 / 3 / 255, executed by a real child process through RunCommand; plus exits by signal, scripts with pauses, existing / missing working directory, volume scripts up to 1 MiB per stream (thorough: 4 MiB), empty / nil / missing / non-executable commands and the by-products of InTotoRun. " +
 			"Each write operation uses its own fill byte, so the capture is compared exactly. A hang is established structurally, never by a timeout: the child sits in write(2) on fd 1/2 (from /proc/<pid>/syscall) and the fill level of that pipe, read with FIONREAD on the parent's own end, equals the capacity and does not move over eight polls while RunCommand has not returned; a run without result after 60 s is inconclusive (exit 0, exhaustive:false). non-trivial = the script writes or exits non-zero. states = scripts, transitions = script operations.",
 		Assumptions: []string{"linux/amd64 (/proc/<pid>/syscall, write = syscall 1)", "the schedule between parent and child is whatever the kernel gives; deadlock on a full pipe does not depend on it"},
 	})
